@@ -230,6 +230,28 @@ func genC19(g *G) {
 		} {
 			g.emit("mig.dec", hx([]byte(v)))
 		}
+		// length variants (seeded change C19-h: a guard that also admits the 90-tryte hash-with-checksum form): the valid
+		// string with 1…12, 27 and 81 extra trytes — nines or random trytes — inserted at each boundary between its parts
+		// (front, behind the prefix, behind the address, in front of the suffix, at the end), which covers every total
+		// length 82…93, 108 and 162 with the genuine parts at their fixed offsets from either end
+		cuts := []int{0, 8, 72, 80, 81}
+		for _, n := range []int{1, 2, 3, 4, 5, 6, 7, 8, 9, 10, 11, 12, 27, 81} {
+			if !g.thorough && n != 9 && g.r.intn(3) != 0 {
+				continue
+			}
+			for _, c := range cuts {
+				for variant := 0; variant < 2; variant++ {
+					ins := []byte(strings.Repeat("9", n))
+					if variant == 1 {
+						for j := range ins {
+							ins[j] = tryteAlphabet[g.r.intn(len(tryteAlphabet))]
+						}
+					}
+					v := append(append(append([]byte(nil), t[:c]...), ins...), t[c:]...)
+					g.emit("mig.dec", hx(v))
+				}
+			}
+		}
 	}
 	g.emit("mig.dec", hx(nil))
 	g.emit("mig.dec", hx([]byte(strings.Repeat("9", 81))))
